@@ -17,13 +17,13 @@ PROPS = ("C20",)
 BUDGET = {"quick": 900, "thorough": 1500}
 CHUNK = 40
 YEARS = (2019, 2020, 2021, 2022)
-KINDS = {"B": ("IN", "BUY"), "I": ("IN", "INTEREST"), "S": ("OUT", "SELL"), "M": ("INTRA", "MOVE"), "G": ("IN", "GIFT")}
+KINDS = {"B": ("IN", "BUY"), "I": ("IN", "INTEREST"), "S": ("OUT", "SELL"), "M": ("INTRA", "MOVE"), "m": ("INTRA", "MOVE"), "G": ("IN", "GIFT")}  # m = transfer without fee
 
 
 def jobs(tier):
     js = []
     for lang in ("en", "kl"):
-        for c1, c2 in [("BS", "B"), ("BBS", "B"), ("BSB", "BS"), ("BIS", "B"), ("BMS", "B")] if tier == "quick" else [("BS", "B"), ("BBS", "B"), ("BSB", "BS"), ("BIS", "B"), ("BMS", "B"), ("BBSS", "BS"), ("BSBS", "B"), ("BGS", "BS"), ("BSS", "BSS")]:
+        for c1, c2 in [("BS", "B"), ("BBS", "B"), ("BSB", "BS"), ("BIS", "B"), ("BMS", "B"), ("BmS", "B")] if tier == "quick" else [("BS", "B"), ("BBS", "B"), ("BSB", "BS"), ("BIS", "B"), ("BMS", "B"), ("BmS", "B"), ("BBSS", "BS"), ("BSBS", "B"), ("BGS", "BS"), ("BSS", "BSS")]:
             js.append({"c1": c1, "c2": c2, "lang": lang})
     # timestamps within hours of New Year with non-UTC offsets: the year is the one written in the timestamp
     js.append({"c1": "BS", "c2": "B", "lang": "en", "edge": True})
@@ -102,6 +102,8 @@ def run(S, spec):
         S.expect(rows.get(1, {}).get(7) == asset, "C20", "asset-label", "sheet %s is labelled %r" % (name, rows.get(1, {}).get(7)))
         mine = sorted((i for i in range(len(h.slots)) if ys[i] == y), key=lambda i: h.t[i])  # instants are concrete here
         data = [r for r in sorted(rows) if r >= 21 and 3 in rows[r] and 0 in rows[r] and not (isinstance(rows[r].get(0), str))]
+        # a transfer without fee is a transaction of its year (the year gets its sheet and summary line) but has nothing to list
+        mine = [i for i in mine if not (h.slots[i]["table"] == "INTRA" and isinstance(h.f[i], int) and h.f[i] == 0)]
         S.expect(len(data) == len(mine), "C20", "row-count", "sheet %s lists %d transactions, the year has %d" % (name, len(data), len(mine)))
         for r, i in zip(data, mine):
             c = rows[r]
